@@ -34,8 +34,9 @@ _FIRST_SNIPPET = "import sys,json; c,n=json.loads(sys.stdin.read()); print(next(
 
 
 def first_symbol_seeds(rt, seeds) -> List[int]:
-    """Hash seeds under which the first symbol of the rank's local table (built as set(cat) | set(name), as the parser does) is one of
-    SPECIAL_FIRST.  One tiny interpreter per seed (no pandas), a few milliseconds each."""
+    """Hash seeds under which the first symbol of the rank's local table (built as set(cat) | set(name), as the parser does) has a special
+    role: at most one seed per group (synchronisation records, launch calls, categories).  One tiny interpreter per candidate seed (no
+    pandas), a few milliseconds each."""
     cats, names = [], []
     for e in rt.events:
         if hta.is_complete(e):
@@ -43,18 +44,23 @@ def first_symbol_seeds(rt, seeds) -> List[int]:
                 cats.append(e["cat"])
             if e["name"] not in names:
                 names.append(e["name"])
-    if not (SPECIAL_FIRST & (set(cats) | set(names))):
+    present = set(cats) | set(names)
+    groups = [g & present for g in ({"Context Sync", "Event Sync"}, {"cudaLaunchKernel", "cudaMemcpyAsync", "cudaMemsetAsync"},
+                                    SPECIAL_FIRST - {"Context Sync", "Event Sync", "cudaLaunchKernel", "cudaMemcpyAsync", "cudaMemsetAsync"})]
+    if not any(groups):
         return []
     payload = json.dumps([cats, names])
-    good = []
+    found: Dict[int, int] = {}
     for s in seeds:
         p = subprocess.run(["/venv/bin/python", "-S", "-c", _FIRST_SNIPPET], input=payload, env={"PYTHONHASHSEED": str(s)}, stdout=subprocess.PIPE,
                            stderr=subprocess.PIPE, text=True)
-        if p.returncode == 0 and p.stdout.strip() in SPECIAL_FIRST:
-            good.append(s)
-            if len(good) >= 2:
-                break
-    return good
+        first = p.stdout.strip() if p.returncode == 0 else ""
+        for gi, g in enumerate(groups):
+            if first in g and gi not in found:
+                found[gi] = s
+        if all((gi in found) or not g for gi, g in enumerate(groups)):
+            break
+    return [found[gi] for gi in sorted(found)]
 
 
 class C11(Prop):
@@ -75,7 +81,7 @@ class C11(Prop):
 
     def gen_case(self, rng, k, tier):
         cfg = gen.GenCfg(n_ranks=rng.choice([1, 2, 3, 4]), n_steps=rng.choice([0, 1, 2]), p_launch=0.6, p_mem=0.3, p_comm=0.3,
-                         p_sync=rng.choice([0, 0.1]), streams=rng.choice([(7,), (7, 9)]), max_children=rng.choice([2, 3]),
+                         p_sync=rng.choice([0, 0.1, 0.2]), streams=rng.choice([(7,), (7, 9)]), max_children=rng.choice([2, 3]),
                          base=rng.choice([0, 1000]), fmt=rng.choice(["json", "json.gz"]),
                          kdur=rng.choice([(0, 1, 2, 3, 5, 8), (1, 2), (2,)]), gpu_annotations=rng.random() < 0.5)      # few distinct durations: exact ties between the totals of different names
         superset = cfg.n_ranks >= 2 and rng.random() < 0.4
@@ -156,7 +162,7 @@ class C11(Prop):
                 cfgs.append((0, False, rn, ""))
             # directed seeds: hash seeds under which a symbol with a special role (a synchronisation record, a launch call, a category)
             # is the FIRST symbol of the first rank's table, i.e. gets id 0
-            for s in first_symbol_seeds(rts[0], range(4, 40))[:2]:
+            for s in first_symbol_seeds(rts[0], range(4, 124))[:3]:
                 cfgs.append((s, False, "none", ""))
             cfgs = [c + ("",) for c in cfgs]
             if multi:
